@@ -250,6 +250,9 @@ func ruleLeaveCallers(r *Run) {
 		n++
 		okCaller := r.onlyFrom(fn, "websocket.(*RealtimeHandler).HandleDisconnect", "websocket.(*RealtimeHandler).HandleParticipantJoin")
 		r.Check("E2", "caller["+fn.Name+"]", okCaller, fn.Body.Pos(), "the leave function is called from the disconnect handler and from join only")
+		if fn.Obj != nil && r.P.isGlue(fn.Obj) && !r.attributed(fn)[fn.Name] {
+			continue // glue: its call of the leave function is examined in the paths of the functions it acts for
+		}
 		paths := r.Paths(fn)
 		r.Analysed(fn, len(paths))
 		for pi := range paths {
